@@ -48,9 +48,17 @@ def make_layouts(rng, pop):
     g1 = [old_version(pop[i], pop[(i * 5 + 1) % len(pop)]) for i in sh2] + [pop[i] for i in range(len(pop)) if i % 3 == 0 and i not in sh2]
     g2 = [old_version(pop[i], pop[(i * 11 + 2) % len(pop)]) for i in sh2[:6]] + [pop[i] for i in range(len(pop)) if i % 3 == 1 and i not in sh2]
     g3 = [pop[i] for i in range(len(pop)) if i % 3 == 2 or i in sh2]
-    for f in (f1, f2, g1, g2, g3):
+    # time-sliced: the newer file holds only late streams, among them the newest versions of streams whose old versions
+    # (early times) are in the older file: a time bound can rule out the newer file as a whole, its streams still hide
+    # the old versions
+    late = [i for i in range(len(pop)) if pop[i]["ft"] >= 2]
+    early = [i for i in range(len(pop)) if pop[i]["ft"] < 2]
+    sh3 = rng.sample(late, min(12, len(late)))
+    h1 = [pop[i] for i in early] + [old_version(pop[i], pop[early[(k * 5) % len(early)]]) for k, i in enumerate(sh3)]
+    h2 = [pop[i] for i in late]
+    for f in (f1, f2, g1, g2, g3, h1, h2):
         rng.shuffle(f)
-    return [one, two, [g1, g2, g3]]
+    return [one, two, [g1, g2, g3], [h1, h2]]
 
 
 RUNS = [
